@@ -10,6 +10,7 @@ import (
 	"time"
 
 	"github.com/prometheus/prometheus/internal/verif/vx"
+	"github.com/prometheus/prometheus/tsdb/tombstones"
 	"github.com/prometheus/prometheus/tsdb/wlog"
 )
 
@@ -39,27 +40,30 @@ func c15SelfTest(t *testing.T, r *vx.Run) {
 		t.Fatalf("self-test: unexpected view %+v", a)
 	}
 	// the comparison must notice a lost sample, a lost tombstone and changed metadata
+	q := &c15Req{Meta: map[string]string{}, MetaOptional: map[string]bool{}, Tombs: map[string]tombstones.Intervals{}, RacyEx: map[string]map[string]bool{}}
 	b := &c15View{Samples: map[string][]string{"s1": append([]string{"99=1"}, a.Samples["s1"]...)}, Exemplars: a.Exemplars, Tombs: a.Tombs, Meta: a.Meta}
-	if f := c15Compare(a, b, "x", ""); f == nil || !strings.HasPrefix(f.Signature, "replay-samples-differ") {
+	if f := c15Compare(a, b, q, "x", ""); f == nil || !strings.HasPrefix(f.Signature, "replay-samples-differ") {
 		t.Fatalf("self-test: sample difference not reported (%v)", f)
 	}
-	b = &c15View{Samples: a.Samples, Exemplars: a.Exemplars, Tombs: map[string]string{"s1": "[{1 2}]"}, Meta: a.Meta}
-	if f := c15Compare(a, b, "x", ""); f == nil || !strings.HasPrefix(f.Signature, "replay-tombstones-differ") {
+	b = &c15View{Samples: a.Samples, Exemplars: a.Exemplars, Tombs: a.Tombs, Meta: a.Meta}
+	q.Tombs["s1"] = tombstones.Intervals{{Mint: 20, Maxt: 30}}
+	if f := c15Compare(a, b, q, "x", ""); f == nil || !strings.HasPrefix(f.Signature, "replay-tombstones-differ") {
 		t.Fatalf("self-test: tombstone difference not reported (%v)", f)
 	}
+	delete(q.Tombs, "s1")
 	b = &c15View{Samples: a.Samples, Exemplars: a.Exemplars, Tombs: a.Tombs, Meta: map[string]string{"s1": "other"}}
-	if f := c15Compare(a, b, "x", ""); f == nil || !strings.HasPrefix(f.Signature, "replay-metadata-differs") {
+	if f := c15Compare(a, b, q, "x", ""); f == nil || !strings.HasPrefix(f.Signature, "replay-metadata-differs") {
 		t.Fatalf("self-test: metadata difference not reported (%v)", f)
 	}
 	// the orphan rule must notice a record whose series record is missing: drop the checkpoint
-	w, f := c15Decode(x.walDir())
+	w, f := c15Decode(x.walDir(), true)
 	if f != nil || w.CP < 0 {
 		t.Fatalf("self-test: expected a checkpoint (%v)", f)
 	}
 	if err := os.RemoveAll(wlog.CheckpointDir(x.walDir(), w.CP)); err != nil {
 		t.Fatal(err)
 	}
-	w, f = c15Decode(x.walDir())
+	w, f = c15Decode(x.walDir(), true)
 	if f != nil {
 		t.Fatalf("self-test: %s", f.Message)
 	}
@@ -98,7 +102,7 @@ func TestVerifC15Head(t *testing.T) {
 	}
 	var plans []plan
 	if r.Quick() {
-		plans = []plan{{"small", 4}, {"medium", 2}, {"small+cp", 3}, {"small+dup", 3}}
+		plans = []plan{{"small", 3}, {"medium", 2}, {"small+cp", 3}, {"small+dup", 3}, {"medium+dup", 2}}
 	} else {
 		plans = []plan{{"small", 5}, {"medium", 3}, {"small+cp", 4}, {"small+dup", 4}, {"medium+cp", 3}, {"medium+dup", 3}}
 	}
